@@ -139,16 +139,22 @@ PLANS["C12"] = {
 }
 
 
-def _cbmc(shape, q, t):
+ALLTIMES = '{"add", "pre", "render", "post"}'
+ALLTARGETS = '{"itself", "cell", "row"}'
+
+
+def _cbmc(shape, q, t, times=ALLTIMES, targets=ALLTARGETS, passes=2):
     return {"module": "MCCallbacks",
-            "quick": dict(Shape=shape, MaxCbs=q, MaxPasses=2),
-            "thorough": dict(Shape=shape, MaxCbs=t, MaxPasses=2)}
+            "quick": dict(Shape=shape, MaxCbs=q, MaxPasses=passes, RegTimes=Raw(times), RegTargets=Raw(targets)),
+            "thorough": dict(Shape=shape, MaxCbs=t, MaxPasses=passes, RegTimes=Raw(times), RegTargets=Raw(targets))}
 
 
 PLANS["C13"] = {
     "facets": "props",
     "own": ["props", "res.cblog", "res.regerr"],
-    "mc": [_cbmc("empty", 2, 2), _cbmc("hdr", 1, 2), _cbmc("one", 2, 2), _cbmc("built", 1, 2), _cbmc("full", 1, 2)],
+    "mc": [_cbmc("empty", 2, 2), _cbmc("hdr", 1, 2), _cbmc("one", 2, 2), _cbmc("built", 1, 2), _cbmc("full", 1, 2),
+           # cells copied by value carry their callbacks: registrations on the original and on each copy
+           _cbmc("copy", 3, 4, '{"render"}', '{"itself"}', 1)],
     "random": [{"gen": gens.gen_callbacks}],
     "min_scenarios": {"quick": 3000, "thorough": 50000},
     "assumptions": [
@@ -190,8 +196,8 @@ PLANS["C04"] = {
     "own": ["out.text", "out.errtext"],
     "mc": [{
         "module": "MCRender",
-        "quick": _textmc('{"a", "m", "W5", "H3"}', 1, 2, '{"vL", "vR", "vC"}', '{"default"}', "{1}"),
-        "thorough": _textmc('{"a", "m", "W5", "W1", "H3", "H1"}', 1, 2, '{"vL", "vR", "vC"}', '{"default", "none"}', "{2}"),
+        "quick": _textmc('{"a", "m", "W5", "H3", "WH"}', 1, 2, '{"vL", "vR", "vC"}', '{"default"}', "{1}"),
+        "thorough": _textmc('{"a", "m", "W5", "W1", "W0", "H3", "H1", "WH"}', 1, 2, '{"vL", "vR", "vC"}', '{"default", "none"}', "{2}"),
         "subst": {"quick": [{"n": 1}], "thorough": [{"n": 1}]},
     }],
     "random": [{"gen": gens.gen_text_sized}],
@@ -226,8 +232,8 @@ PLANS["C06"] = {
     "own": ["out.html", "out.errtext"],
     "mc": [{
         "module": "MCRender",
-        "quick": _rmc("html", '{"E", "x", "LT"}', 2, 2, "{}", "{}", "{0, 1, 2}", '{"none", "all", "gen0"}'),
-        "thorough": _rmc("html", '{"E", "x", "LT", "AMP", "Q", "SC", "SP"}', 2, 2, "{}", "{}", "{0, 1, 2}", '{"none", "all", "gen0"}'),
+        "quick": _rmc("html", '{"E", "x", "LT"}', 2, 2, "{}", "{}", "{0, 1, 2}", '{"none", "all", "gen0", "regen"}'),
+        "thorough": _rmc("html", '{"E", "x", "LT", "AMP", "Q", "SC", "SP"}', 2, 2, "{}", "{}", "{0, 1, 2}", '{"none", "all", "gen0", "regen"}'),
         "subst": {"quick": [{"n": 1, "pool": "html"}], "thorough": [{"n": 1, "pool": "html"}, {"n": 2, "pool": "html"}]},
     }],
     "random": [{"gen": gens.gen_html}],
@@ -248,7 +254,7 @@ PLANS["C07"] = {
          "thorough": _rmc("json", '{"x", "E"}', 6, 1, '{"vtrue", "vfalse"}', "{}", "{1}")},
         # contents, header error cases and skipable assignments on one or two rows
         {"module": "MCRender",
-         "quick": _rmc("json", '{"E", "x", "obj"}', 1, 2, '{"vtrue", "vbad"}', "{}", "{0, 1, 2}"),
+         "quick": _rmc("json", '{"E", "x", "obj"}', 1, 2, '{"vtrue", "vfalse", "vbad"}', "{}", "{0, 1, 2}"),
          "thorough": _rmc("json", '{"E", "x", "U", "obj", "obje", "nil", "num"}', 2, 2, '{"vtrue", "vfalse", "vbad"}', "{}", "{0, 1, 2}"),
          "subst": {"quick": [{"n": 1, "pool": "json"}], "thorough": [{"n": 1, "pool": "json"}]}},
     ],
